@@ -1006,6 +1006,23 @@ impl CacheFacade {
         )
     }
 
+    /// The keys (names) of each map, whether or not records are left under them.
+    pub fn keys(&self) -> Vec<(&'static str, String)> {
+        let maps: [(&'static str, &HashMap<String, Vec<crate::dns_cache::DnsRecordIntf>>); 5] = [
+            ("ptr", self.cache.all_ptr()),
+            ("srv", self.cache.all_srv()),
+            ("txt", self.cache.all_txt()),
+            ("addr", self.cache.all_addr()),
+            ("nsec", self.cache.all_nsec()),
+        ];
+        let mut out: Vec<(&'static str, String)> = maps
+            .iter()
+            .flat_map(|(m, map)| map.keys().map(move |k| (*m, k.clone())))
+            .collect();
+        out.sort();
+        out
+    }
+
     pub fn verify(&mut self, instance: &str, expire_at: Option<u64>) -> Vec<(String, u16)> {
         self.cache
             .service_verify_queries(instance, expire_at)
